@@ -673,7 +673,7 @@ func scalarTextGuard(c *Ctx, rid string) {
 	r, p := c.R, c.P
 	r.Rule(rid, "a YAML node's text is read only under a test that the node is a scalar", 4)
 	exceptions := map[string]string{
-		"internal/parser/yaml.Yaml.Map#y.data.Content[*].Value": "keys of a mapping: a non-scalar key has the empty text and names nothing a caller could ask for",
+		"internal/parser/yaml.Yaml.Map#$.data.Content[*].Value": "keys of a mapping: a non-scalar key has the empty text and names nothing a caller could ask for",
 	}
 	isNodeField := func(fa *ssa.FieldAddr, name string) bool {
 		pt, ok := fa.X.Type().Underlying().(*types.Pointer)
@@ -702,7 +702,12 @@ func scalarTextGuard(c *Ctx, rid string) {
 				n++
 				node := describeFieldLoad(fa.X)
 				key := ord.next(FuncKey(fn) + "#" + node + ".Value")
-				if why, ok := exceptions[FuncKey(fn)+"#"+node+".Value"]; ok {
+				// (the construct is named without the name of the receiver / parameter the path starts from)
+				anon := node
+				if i := strings.IndexAny(anon, ".["); i > 0 {
+					anon = "$" + anon[i:]
+				}
+				if why, ok := exceptions[FuncKey(fn)+"#"+anon+".Value"]; ok {
 					r.OK(rid, key, p.Pos(ld.Pos()), "listed exception: "+why)
 					continue
 				}
@@ -1819,8 +1824,8 @@ func c12ValidationFoundUnderItsName(c *Ctx) {
 				return
 			}
 			sig := f.Type().(*types.Signature)
-			if sig.Params().Len() < 2 || !isStringType(sig.Params().At(0).Type()) || sig.Params().At(0).Name() != "name" || typeName(derefType(sig.Params().At(1).Type())) != "Yaml" {
-				return
+			if sig.Params().Len() < 3 || !isStringType(sig.Params().At(0).Type()) || typeName(derefType(sig.Params().At(1).Type())) != "Yaml" || !isStringType(sig.Params().At(2).Type()) {
+				return // the validation parser takes (name, node, level, ...)
 			}
 			key := relOf(pk) + "." + w.FuncName() + "#" + f.Name()
 			if seen[key] {
